@@ -116,7 +116,9 @@ class RobotsTxtChecker(object):
 
     def _read_content(self, response: Response, original_url_info: URLInfo):
         '''Read response and parse the contents into the pool.'''
-        data = response.body.read(4096)
+        # Rules beyond the first 4 KiB used to be ignored silently; use the
+        # customary 500 KiB limit for robots.txt files instead.
+        data = response.body.read(500 * 1024)
         url_info = original_url_info
 
         try:
